@@ -1061,6 +1061,7 @@ reply_schedule_callback(struct request *const req, u32 ttl, u32 err, struct repl
 		memcpy(&handle->reply, reply, sizeof(struct reply));
 		/* We've taken ownership of the data. */
 		reply->data.raw = NULL;
+		reply->cname = NULL;
 	}
 
 	handle->pending_cb = 1;
@@ -1395,8 +1396,12 @@ reply_parse(struct evdns_base *base, u8 *packet, int length)
 			if (name_parse(packet, length, &j, cname,
 				sizeof(cname))<0)
 				goto err;
-			if (req->need_cname)
+			if (req->need_cname) {
+				/* keep only the last CNAME of a chain */
+				if (reply.cname)
+					mm_free(reply.cname);
 				reply.cname = mm_strdup(cname);
+			}
 			if (req->put_cname_in_ptr) {
 				/* keep the last CNAME of a chain: that is the
 				 * canonical name */
@@ -1463,12 +1468,16 @@ reply_parse(struct evdns_base *base, u8 *packet, int length)
 	reply_handle(req, flags, ttl_r, &reply);
 	if (reply.data.raw)
 		mm_free(reply.data.raw);
+	if (reply.cname)
+		mm_free(reply.cname);
 	return 0;
  err:
 	if (req)
 		reply_handle(req, flags, 0, NULL);
 	if (reply.data.raw)
 		mm_free(reply.data.raw);
+	if (reply.cname)
+		mm_free(reply.cname);
 	return -1;
 }
 
